@@ -25,6 +25,7 @@ func init() {
 			"R5":  "next-BB scan shape, call-site arguments, store at settlement, reset at continue",
 			"R6":  "seat publication pairing (no cross-wiring)",
 			"R7":  "the dead dealer/SB label skip is not conditioned on the seat being occupied",
+			"R11": "position updater, every path of both loops: a seat is a position slot iff it is the dealer/SB/BB seat or holds an eligible player (never counted twice, count from 0, full circle from the dealer seat, table rows used for > 2 slots); the head label is given iff the seat's player is eligible and known, consumed without being given iff the seat has no eligible player, the head is dealer/sb and the seat is the dealer/SB seat; one circle from the BB seat; the loop is left when no label remains",
 			"R10": "entry 0 of the hand's player list: the dealer's seat when a dealt-in player holds it, else the nearest active seat counter-clockwise from the SB seat (held) or the BB seat; seat-map entries skipped only when unset (shared with C02.R4)",
 			"R9":  "the dealt-in flags (which decide who gets a label) are copied from the seat manager's eligibility, for every player, after this hand's rotation (shared with C05.R1)",
 			"R8":  "label assignment pairing: the head of the remaining label list goes to the eligible player of the next seat counted from the seat manager's BB seat, found through an id→index map of the same player list",
@@ -318,6 +319,9 @@ func checkC06(c *Ctx) {
 		c.Check(d == "", "R8", "label-assignment", where, "next label → the eligible player of the next seat from the BB", d)
 	}
 	c.Min("R8", "label assignments", nLab, 1)
+
+	// ---------------- R11 slot count and hand-out decisions, path by path
+	checkLabelSlots(c, updater, tableFn, rotateCall)
 
 	// ---------------- R4
 	if lc.startFn != nil {
